@@ -152,6 +152,28 @@ let () =
            | ABadCase -> print_string "BADCASE\n"
            | AExc e -> print_string (exc_name e ^ "\n")
            | AOk v -> print_string ("OK " ^ render v ^ "\n"))
+        | "popclass" ->
+          (* is the document inside the F36 class of C18 (has_unloaded, coq/ArchProofs.v: some position of the document
+             comes back "not loaded")?  same arguments as popload; the map modes have no class *)
+          let arch = t.(1) in
+          let a = arch_of arch in
+          let ty = List.nth type_catalogue (int_of_string t.(2)) in
+          let pl = pol_of t.(4) in
+          let d = doc_of_tree arch true (parse_tree t.(6)) in
+          if t.(3) = "o" || t.(3) = "u" then print_string "NA\n"
+          else print_string (if has_unloaded a pl ty d then "IN\n" else "OUT\n")
+        | "valclass" ->
+          (* is the load inside the F32 class of C17 (truncated, coq/ArchValidation.v)?  same arguments as validate *)
+          let arch = t.(1) in
+          let a = arch_of arch in
+          let cls = List.nth class_catalogue (int_of_string t.(2)) in
+          let max = n_of_int (int_of_string t.(3)) in
+          let pl = pol_of t.(4) in
+          let d = doc_of_tree arch true (parse_tree t.(5)) in
+          (match validate_class a pl max cls d with
+           | Some true -> print_string "IN\n"
+           | Some false -> print_string "OUT\n"
+           | None -> print_string "NA\n")
         | "validate" ->
           let arch = t.(1) in
           let a = arch_of arch in
